@@ -789,3 +789,161 @@ func zipShuffle(c *hx.Ctx, fs []gen.ZipFileSpec) []gen.ZipFileSpec {
 	c.Rng.Shuffle(len(out), func(i, j int) { out[i], out[j] = out[j], out[i] })
 	return out
 }
+
+// ---- the documented restrictions on an archive, written independently of checkZip ----------
+
+type zipSpecItem struct {
+	path  string
+	isDir bool
+}
+
+// zipSpecArchive decides whether the entries obey the restrictions of the package
+// documentation for module m (prefix, valid clean paths, no collisions under case folding
+// or as file versus directory, go.mod only at the root in lower case, size limits on the
+// declared sizes).  why names the first violated restriction.
+func zipSpecArchive(m module.Version, es []gen.ZipArchEntry) (ok bool, why string) {
+	prefix := m.Path + "@" + m.Version + "/"
+	var items []zipSpecItem
+	total := uint64(0)
+	for _, e := range es {
+		if !strings.HasPrefix(e.Name, prefix) {
+			return false, fmt.Sprintf("%q lacks the prefix", e.Name)
+		}
+		name := e.Name[len(prefix):]
+		if name == "" {
+			continue
+		}
+		isDir := strings.HasSuffix(name, "/")
+		if isDir {
+			name = name[:len(name)-1]
+		}
+		if path.Clean(name) != name {
+			return false, fmt.Sprintf("%q is not clean", e.Name)
+		}
+		if err := module.CheckFilePath(name); err != nil {
+			return false, fmt.Sprintf("%q: %v", e.Name, err)
+		}
+		el := strings.Split(name, "/")
+		for i := len(el); i >= 1; i-- {
+			q, d := strings.Join(el[:i], "/"), isDir || i < len(el)
+			known := false
+			for _, it := range items {
+				if !strings.EqualFold(it.path, q) {
+					continue
+				}
+				if it.path != q {
+					return false, fmt.Sprintf("%q and %q differ only in case", it.path, q)
+				}
+				if it.isDir != d {
+					return false, fmt.Sprintf("%q is both a file and a directory", q)
+				}
+				if !d {
+					return false, fmt.Sprintf("%q occurs twice", q)
+				}
+				known = true
+			}
+			if !known {
+				items = append(items, zipSpecItem{q, d})
+			}
+		}
+		if isDir {
+			continue
+		}
+		if strings.EqualFold(el[len(el)-1], "go.mod") {
+			if len(el) > 1 {
+				return false, fmt.Sprintf("%q: go.mod outside the root", e.Name)
+			}
+			if name != "go.mod" {
+				return false, fmt.Sprintf("%q: go.mod in the wrong case", e.Name)
+			}
+		}
+		if e.Declared > uint64(modzip.MaxZipFile) || total+e.Declared > uint64(modzip.MaxZipFile) {
+			return false, "total declared size above MaxZipFile"
+		}
+		total += e.Declared
+		if name == "go.mod" && e.Declared > modzip.MaxGoMod {
+			return false, "go.mod above MaxGoMod"
+		}
+		if name == "LICENSE" && e.Declared > modzip.MaxLICENSE {
+			return false, "LICENSE above MaxLICENSE"
+		}
+	}
+	return true, ""
+}
+
+func zipModuleOK(m module.Version) bool {
+	return module.CanonicalVersion(m.Version) == m.Version && module.Check(m.Path, m.Version) == nil
+}
+
+// zipConfined: compared with the listing before, the listing after differs only inside the
+// target directory (or by the target directory itself having been created).
+func zipConfined(run zipUnzipRun) string {
+	before := map[string]zipFsEntry{}
+	for _, e := range run.Before {
+		before[e.Path] = e
+	}
+	inside := func(p string) bool { return p == run.Target || strings.HasPrefix(p, run.Target+"/") }
+	seen := map[string]bool{}
+	for _, e := range run.After {
+		seen[e.Path] = true
+		b, was := before[e.Path]
+		switch {
+		case !was && !inside(e.Path):
+			return fmt.Sprintf("%q was created outside the target %q", e.Path, run.Target)
+		case was && (b.Dir != e.Dir || !bytes.Equal(b.Content, e.Content)):
+			return fmt.Sprintf("%q existed before and was changed", e.Path)
+		}
+	}
+	for p := range before {
+		if !seen[p] {
+			return fmt.Sprintf("%q existed before and is gone", p)
+		}
+	}
+	return ""
+}
+
+// zipTreeIsEntries: after a successful Unzip the regular files below the target are exactly
+// the non-directory entries (prefix stripped) with their contents, and the directories are
+// exactly the ancestors of those files.
+func zipTreeIsEntries(run zipUnzipRun, prefix string, names []string, contents [][]byte) string {
+	want := map[string][]byte{}
+	dirs := map[string]bool{}
+	for i, n := range names {
+		rel := strings.TrimPrefix(n, prefix)
+		if rel == "" || strings.HasSuffix(rel, "/") {
+			continue
+		}
+		want[run.Target+"/"+rel] = contents[i]
+		for d := path.Dir(rel); d != "."; d = path.Dir(d) {
+			dirs[run.Target+"/"+d] = true
+		}
+	}
+	n := 0
+	for _, e := range run.After {
+		if !strings.HasPrefix(e.Path, run.Target+"/") {
+			continue
+		}
+		if e.Dir {
+			if !dirs[e.Path] {
+				return fmt.Sprintf("directory %q is not an ancestor of an entry", e.Path)
+			}
+			delete(dirs, e.Path)
+			continue
+		}
+		w, ok := want[e.Path]
+		if !ok {
+			return fmt.Sprintf("file %q is not an entry", e.Path)
+		}
+		if !bytes.Equal(w, e.Content) {
+			return fmt.Sprintf("file %q has content %q, the entry has %q", e.Path, e.Content, w)
+		}
+		n++
+	}
+	if n != len(want) {
+		return fmt.Sprintf("%d files extracted, %d entries", n, len(want))
+	}
+	if len(dirs) != 0 {
+		return fmt.Sprintf("missing directories %v", dirs)
+	}
+	return ""
+}
